@@ -43,8 +43,14 @@ def check(ctx):
         locs = re.findall(r"^\s+(/\S+?\.go:\d+)", r, re.M)
         return tuple(l for l in locs if "/repo/" in l or "jrhy/mast" in l)[:4]
     by_sig = {}
+    harness_only = 0
     for r in reports:
+        if not sig(r):
+            harness_only += 1      # no library location involved: a race inside the harness is not a verdict about the library
+            continue
         by_sig.setdefault(sig(r), r)
+    if harness_only and not by_sig:
+        raise Undecided("the race detector reported %d race(s) that involve only harness code" % harness_only)
     # as-if-alone: every goroutine's history against TraceMast
     files, chunks, start, reps = validate_parallel(ctx, "TraceMast.tla", "TraceMast.cfg", trace, 4 if quick else 14)
     stat, viols = {}, []
